@@ -431,7 +431,7 @@ func main() {
 	core.Main(&core.Family{
 		Name:      "Wallet",
 		NewDriver: func() core.Driver { return &drv{} },
-		Recorders: map[string]core.Recorder{"default": recordFan},
+		Recorders: map[string]core.Recorder{"default": recordFan("default", record), "enc": recordFan("enc", recordEnc)},
 		Extra:     map[string]func(*core.Env, []string) int{"replay-candidate": replayCandidate},
 	})
 }
